@@ -252,6 +252,9 @@ class IndexedCache:
         :param assignment: The assignment to check.
         """
         assignment = {k: v for k, v in assignment.items() if k in self.keys}
+        if not assignment:
+            # outputs inserted under no key are not indexed, a lookup that binds no key is never covered.
+            return False
         seen = self.seen_set.check(assignment)
         # if not seen:
         #     self.seen_set.add(assignment)
